@@ -236,6 +236,55 @@ def q19c(cwd_a: int, cwd_b: int, mode: int, tw: int) -> str:
     return q.run(_q19c, (cwd_a, cwd_b, mode, tw))
 
 
+# ---------------------------------------------------------------- Q19w a workflow file on disk: Workflow() without working_dir means the file's directory
+WF_FILES = ["workflow.py", "gwf_pipeline.py", "gwfx.py", "pipeline_gwf.py", "my.flow.py", "Workflow.py"]
+WF_SOURCE = "from gwf import Workflow, AnonymousTarget\ngwf = Workflow()\ngwf.target('T', inputs=['data/in.txt'], outputs=['out.txt']) << 'x'\n" \
+            "gwf.target_from_template('U', AnonymousTarget(inputs=['out.txt'], outputs=['u.txt'], options={}, spec='y'))\n"
+
+
+def _q19w(fi, ci):
+    """A real workflow file (temporary directory on the real file system, removed afterwards) is loaded with the real
+    gwf.utils.load_workflow while the process is in the project directory, a nested sub-directory or an unrelated
+    directory: the workflow's working directory and every relative path mean the file's directory."""
+    if not (q.in_range(fi, len(WF_FILES)) and q.in_range(ci, 3)):
+        return q.SKIP
+    fname, where = q.pick(WF_FILES, fi), q.pick([0, 1, 2], ci)
+    with q.notrace():
+        import shutil
+        import tempfile
+        from gwf.utils import load_workflow
+        base = os.path.realpath(tempfile.mkdtemp(prefix="vf-c19-"))
+        old = os.getcwd()
+        try:
+            proj = os.path.join(base, "proj")
+            os.makedirs(os.path.join(proj, "data", "deep"))
+            os.makedirs(os.path.join(base, "elsewhere"))
+            with open(os.path.join(proj, fname), "w") as f:
+                f.write(WF_SOURCE)
+            os.chdir([proj, os.path.join(proj, "data", "deep"), os.path.join(base, "elsewhere")][where])
+            wf = load_workflow(pathlib.Path(os.path.join(proj, fname)), "gwf")
+            got_wd = os.path.realpath(wf.working_dir)
+            t, u = wf.targets["T"], wf.targets["U"]
+            paths = (t.flattened_inputs(), t.flattened_outputs(), u.flattened_inputs(), u.flattened_outputs())
+            want = ([proj + "/data/in.txt"], [proj + "/out.txt"], [proj + "/out.txt"], [proj + "/u.txt"])
+        finally:
+            os.chdir(old)
+            shutil.rmtree(base, ignore_errors=True)
+        place = ["the project directory", "a nested sub-directory", "an unrelated directory"][where]
+        if got_wd != proj:
+            return "workflow file %s loaded from %s: working directory %r, the file lives in %r" % (fname, place, got_wd.replace(base, "<tmp>"), "<tmp>/proj")
+        if tuple([os.path.realpath(x) for x in part] for part in paths) != want:
+            return "workflow file %s loaded from %s: paths %r" % (fname, place, [[x.replace(base, "<tmp>") for x in part] for part in paths])
+    return ""
+
+
+def q19w(fi: int, ci: int) -> str:
+    """
+    post: _ == ""
+    """
+    return q.run(_q19w, (fi, ci))
+
+
 # ---------------------------------------------------------------- find_workflow + cli.main: same project from every start directory
 def _q19f(depth, use_f, unrelated):
     """Project at /vfs/proj with workflow.py; gwf invoked from /vfs/proj/<d1>/.../<d_depth> (depth
@@ -355,6 +404,8 @@ QUERIES = [
     {"name": "Q19k", "fn": q19k, "shards": [{}], "timeout": 300, "bound": "value kinds %s as input / nested output" % [k[0] for k in KINDS]},
     {"name": "Q19c", "fn": q19c, "shards": [{}], "timeout": {"quick": 900, "thorough": 1800},
      "bound": "every pair of invoking directories from %s x creation modes %s x template working_dir in %s" % (CWDS, MODES, [t[0] for t in TEMPLATE_WD])},
+    {"name": "Q19w", "fn": q19w, "shards": [{}], "timeout": 300,
+     "bound": "workflow file named one of %s, loaded with the real load_workflow from the project directory / a nested sub-directory / an unrelated directory (real temporary files)" % (WF_FILES,)},
     {"name": "Q19f", "fn": q19f, "shards": [{}], "timeout": 400, "bound": "invoking directory = project root or nested 1..3 levels (symbolic depth), or unrelated directory with -f <absolute path>"},
     {"name": "Q19m", "fn": q19m, "shards": [{}], "timeout": 400, "bound": "0..4 map items (symbolic count), 3 naming modes + a naming function that repeats a name (must be rejected), with/without a pre-existing target of the first generated name, evaluated twice"},
 ]
